@@ -9,7 +9,13 @@ SPEC = {
                  'C19_possible_results_exact', 'C19_spec_is_descending_id_order', 'C19_cache_capacity_kept',
                  'C19_refuted_cache', 'C19_refuted', 'C19_refuted_error_order',
                  'C19_refuted_dapp_validity_order', 'C19_refuted_pubkey_cache',
-                 'C19_guard_satisfiable', 'C19_vguard_satisfiable'],
+                 'C19_guard_satisfiable', 'C19_vguard_satisfiable',
+                 'C19_txcache_first_verdict_sticks', 'C19_txcache_history_independent_partial',
+                 'C19_txcache_guard_is_exact', 'C19_txcache_single_use_exact', 'C19_txcache_refuted',
+                 'C19_txcache_sign_refuted', 'C19_txcache_check_refuted', 'C19_txcache_witness_answers',
+                 'C19_txcache_guard_satisfiable', 'C19_txcache_single_use_satisfiable',
+                 'C19_sign_gate_exact', 'C19_sign_valid_monotone', 'C19_sign_same_side',
+                 'C19_txsign_refines_check_sign'],
     'allowed_axioms': [],
     'shard': 40,
     'rule': 'query histories (1-10 queries quick, 1-24 thorough) of address.CheckAddress / dapp.CheckAddress / '
@@ -26,7 +32,25 @@ SPEC = {
             '(g=1: vguard_b holds, half of them with all enable heights 0 - every nil/non-nil failure is a violation, '
             'error-identity divergences may match findings 2/3), "unrestricted" (g=0), "witness" (the refutation witnesses of '
             'Properties.v and a default-configuration sanity history). The generator\'s guard claim is re-checked in Coq. '
-            'non-trivial = some cache key is used at least twice in the history; distinct = distinct Gallina case terms',
+            'non-trivial = some cache key is used at least twice in the history; distinct = distinct Gallina case terms. '
+            'TransactionCache histories (case constructor TcHist; 1-10 calls quick, 1-24 thorough): calls '
+            'TransactionCache.Check(cfg,h,minfee,maxfee) / CheckSign(h) / GetTotalFee(minfee) on 1-6 wrapper objects created '
+            'fresh per history (several wrappers may share one *Transaction) and the memo-free Transaction.Check / '
+            'Transaction.CheckSign / Transactions.CheckSign on the bare transactions, over a fixed alphabet of 35 transactions '
+            '(fees at/below/above the thresholds, 1-2 fee units, oversize, foreign chain id, unsigned, secp256k1 / ed25519 / sm2 / '
+            '"none" driver / unknown sign types / sign types with address-id and masked bits, tampered signatures, five shapes on '
+            'which GetTxGroup fails or yields 0-1 members, 14 groups: mixed signature types, bad member signature, member fee, '
+            'broken Next, foreign member chain id, para titles one/two/mixed/untitled, head fee above maxfee, 3 fee units), heights '
+            'from the same 15-height alphabet, fee rates {0,1e5,2e5,1e6,2^62 (int64 wrap)}, max fees {0,1e7,150000}; configuration '
+            'per case: secp256k1/ed25519/sm2/none enabled or not with enable heights {0,10,-1}/{0,20}/{0,30}/{0,15}, '
+            'ForkTxChainIDStrict {MaxHeight,12}, ForkBlockCheck {0,18}, ForkTxGroupPara {0,22}. Every distinct call is also '
+            'answered by a fresh wrapper and by the memo-free function (and a sample by a fresh OS process). Streams: "tc-guarded" '
+            '(g=2: tguard_b holds, rejection-sampled with the fresh verdicts; every spec failure is a violation), "tc-single-use" '
+            '(g=3: the mempool pattern, no method twice on a wrapper, many wrappers per transaction), "tc-unrestricted" (g=0, may '
+            'hit finding 5), "tc-sign-load" (g=3: histories of signature checks only, bare and through one-shot wrappers, of many '
+            'transactions of the same sign types on both sides of the enable heights - the stream that a process-wide driver memo '
+            'in front of crypto.Load breaks), "tc-witness" (the refutation witnesses of Properties.v, GetTotalFee/GetTxGroup-error '
+            'interplay, int64 wrap). For TcHist non-trivial = some wrapper is checked twice by the same method',
     'trusted_base': [
         'oracle tables supplied with every case (function arguments of the model; the theorems quantify over them): the '
         'ValidateAddr result class of every (driver, address string) obtained by calling the four registered drivers '
@@ -40,13 +64,27 @@ SPEC = {
         'model agreement follows every cache state consistent with the answers seen so far (Check.v next_states), using '
         'the closed form `possible` that C19_possible_results_exact ties to the loop',
         'hashicorp/golang-lru is modelled (move-to-front on Get, update-or-push + evict-oldest on Add), not verified',
+        'TransactionCache part: per member transaction the ChainID and Fee fields, the size in fee units (obtained from '
+        'GetRealFee(1)), the raw sign type and whether the signature verifies with the driver loaded at height -1 (driver '
+        'Validate called directly), GetParaExecTitleName / IsParaExecName, and per group the verdict of the argument-independent '
+        'header/count/next loop of CheckWithFork (recomputed by the harness from Hash(), cross-checked against the real loop '
+        'where no argument-dependent check precedes it) are oracle data supplied with every case; proto decode errors are the '
+        'class TOther; the sign-type mask of ExtractCryptoID, the crypto.Load gate, Transaction.check, CheckWithFork up to the '
+        'structural loop, int64 wrap-around and the three memo fields are modelled in Gallina (ModelTx.v)',
+        'the sign name is taken to be crypto.GetName(ExtractCryptoID(ty)): executor-specific crypto drivers '
+        '(ExecutorType.GetCryptoDriver, plugins only) are not modelled',
     ],
     'assumptions': [
         'perms_ok: every call iterates over exactly the registered drivers, each once',
         'exact theorem: guard_b (same cache key => same spec value; at most one distinct error among enabled rejecting '
         'drivers); validity theorem: vguard_b (queries of one address agree on spec validity), implied by all enable heights = 0',
         'sequential histories only: concurrent CheckAddress calls race on nothing but the (thread-safe) LRU and are not modelled',
-        'CheckSign has no cache in the code; its purity is checked by correspondence only',
+        'Transaction.CheckSign / types.CheckSign / crypto.Load have no cache in the code; their purity is checked by '
+        'correspondence (streams with sign ops, tc-sign-load), the gate itself is characterised by C19_sign_gate_exact',
+        'TransactionCache theorems: tguard_b (all calls of one method on one wrapper object have the same spec verdict) - '
+        'C19_txcache_guard_is_exact shows this guard is also necessary; single_use_b (no method twice on a wrapper) is the '
+        'way every call site inside the repository uses the type',
+        'a TransactionCache whose wrapped *Transaction is mutated between calls is not modelled',
         'address.SetNormalAddrVer / re-running address.Init or crypto.Init in the middle of a history is not modelled '
         '(configuration is fixed per history)',
     ],
@@ -54,10 +92,17 @@ SPEC = {
         'level_text': 'partial: history independence proved under boolean guards (exact: guard_b; nil/non-nil: vguard_b, which '
                       'every history satisfies under the default all-zero enable heights); the unguarded statements are '
                       'refuted in the model and on the code (4 open findings: cache x enable height, error identity by map '
-                      'order, pre-fork dapp.CheckAddress validity by map order, eth pubkey cache x format fork)',
+                      'order, pre-fork dapp.CheckAddress validity by map order, eth pubkey cache x format fork). '
+                      'TransactionCache: the wrapper answers exactly the verdict of the first call per method '
+                      '(C19_txcache_first_verdict_sticks), so history independence holds iff all calls of one method on one '
+                      'wrapper have the same verdict (C19_txcache_guard_is_exact), in particular for the single-use pattern of '
+                      'the mempool; the unguarded statement is refuted in the model and on the code (open finding 5: API-level, '
+                      'no in-repository call site re-uses a wrapper)',
         'level_note': 'model = hand-written Gallina transcription of CheckAddress (cache + driver loop under a permutation), '
                       'isEnable, dapp.CheckAddress, PubKeyToAddr with the per-driver caches and the eth formatting, crypto enable '
-                      'check; ValidateAddr / raw address / signature validity are oracle tables; LRU modelled',
+                      'check; ValidateAddr / raw address / signature validity are oracle tables; LRU modelled; '
+                      'types.TransactionCache (signok / checked / checkok, GetTotalFee) with Transaction.check, '
+                      'Transactions.CheckWithFork, checkSign -> ExtractCryptoID -> crypto.Load transcribed in ModelTx.v',
         'technique': 'Coq proof (cache invariant by induction over query histories, permutation reasoning for the driver '
                      'loop) + in-kernel correspondence check against fresh-cache and fresh-process answers',
     },
